@@ -758,7 +758,48 @@ def witness_custom_serializer(workdir):
         shutil.rmtree(workdir, ignore_errors=True)
 
 
+def witness_admin_path(workdir):
+    """the admin / utility-message entry point of a version switch (`_setCodeVersion`, what syncobj_admin -set_version
+    reaches) refuses what the public call refuses: a version above the node's code, and a version BELOW the enabled one
+    - nothing is queued, the enabled version stays, calls keep running the enabled implementation"""
+    os.makedirs(workdir, exist_ok=True)
+    c = V.Cluster(D_SPEC, {1: 1}, cfg={}, workdir=workdir)
+    try:
+        c.settle()
+        c.setver(1, 1)
+        c.settle()
+        obj = c.obj(1)
+        q = obj._SyncObj__commandsQueue._FastQueue__queue
+        answers = []
+        outcomes = {}
+        for v in (0, 7):
+            before = len(q)
+            try:
+                obj._setCodeVersion([v], lambda res, err, v=v: answers.append((v, err)))
+                outcomes[v] = 'accepted' if len(q) > before else 'refused-by-callback'
+            except Exception as e:
+                outcomes[v] = 'refused: ' + str(e)[:40]
+        c.settle()
+        ver = obj.getCodeVersion()
+        c.call(1, 0, 'op')
+        c.settle()
+        V.monitor(c)
+        h = [tuple(e) for e in obj.ghist]
+        ok = (ver == 1 and outcomes[0] != 'accepted' and outcomes[7] != 'accepted' and h[-1:] == [(0, 'op', 1, 1)]
+              and not c.problems)
+        return ok, {'getCodeVersion_after': ver, 'outcomes': outcomes, 'answers': answers, 'history': h, 'problems': c.problems}
+    finally:
+        c.finish()
+        shutil.rmtree(workdir, ignore_errors=True)
+
+
 def known(ctx):
+    ok, info = witness_admin_path(os.path.join(ctx.work, 'adm'))
+    ctx.monitor['admin_path_witness'] = info
+    if not ok:
+        ctx.violation('C17 monitor on the implementation: a version switch requested through the admin entry point is not refused '
+                      'like the public call (lower than the enabled version, or above the code): %r' % (info,),
+                      {'kind': 'admin_path'}, found_input=True)
     ok, info = witness_d2()
     ctx.monitor['d2_witness'] = info
     if not ok:
